@@ -138,7 +138,7 @@ class World:
         return [fmt(e) for e in sorted(merged, key=lambda x: x[0])]
 
     def loop_reports(self):
-        gc.collect()
+        gc.collect(1)        # young generations: finalises this world's abandoned tasks ("exception never retrieved")
         return list(self.loop.exc_reports)
 
 
